@@ -1,4 +1,6 @@
 import RdsProofs.Reach
+import RdsProofs.C04Proofs
+import RdsProofs.C08Cb
 import RdsProofs.NormalShown
 import RdsProofs.WordedProofs
 import RdsProofs.LinkProofs
@@ -13,6 +15,7 @@ and C whose first code is not 250 (`Mon.group`). That every addition fires the A
 -/
 -- THEOREM: RDS.C10
 -- THEOREM: RDS.C10_normal_shown
+-- THEOREM: RDS.C10_callback
 -- THEOREM: RDS.C10_worded_normal
 -- THEOREM: RDS.C10_worded_extended
 -- THEOREM: RDS.C10_monotone
@@ -24,6 +27,12 @@ namespace RDS
 theorem C10_normal_shown (tb : Tabs) (h : EccOk tb) (ops : List Op) (op : Op) :
     chkNormalAf (recOf tb.cfg (run tb.cfg ops) op) = true :=
   chkNormalAf_ok tb _ op (reach tb h ops).2
+
+/-- C10's callback clause for every history: the AF reports of a call are exactly the codes the call added to the list, each once,
+as 87 500 + 100·code kHz (while an AF callback is registered) -/
+theorem C10_callback (tb : Tabs) (h : EccOk tb) (ops : List Op) (op : Op) :
+    chkC10cb (monAfter tb.cfg ops) (recOf tb.cfg (run tb.cfg ops) op) = true :=
+  chkC10cb_of_chkC04 _ _ (chkC04_ok tb _ _ op (reach tb h ops).1 (reach tb h ops).2)
 
 /-- C10 for every history and every next call -/
 theorem C10 (tb : Tabs) (h : EccOk tb) (ops : List Op) (op : Op) :
